@@ -96,7 +96,7 @@ def random_sweep(ctx, n_sched, n_cycles, with_coq):
             n = rng.randint(n_cycles // 2, n_cycles)
             sched = B.a2r_schedule(rng, DW, n, kind) if cls is B.A2R else B.r2a_schedule(rng, W, n, kind)
             mon = B.A2RMonitor(W) if cls is B.A2R else B.R2AMonitor(W, DW)
-            dp = blk.dump() if with_coq and k < 2 * len(WIDTHS) else None
+            dp = blk.dump() if with_coq and k < (4 if ctx.quick else 2 * len(WIDTHS)) else None
             iv = dp.values() if dp else None
             full = []
             if dp:      # run through the dump so that the complete wire vector of every cycle is recorded for tie (b)
@@ -127,8 +127,8 @@ def random_sweep(ctx, n_sched, n_cycles, with_coq):
         items.append(('b%d' % j, '(trace_diff 0 %s (r2a_trace %d %d %d %s), trace_diff 0 %s (r2a_ref_trace_from %d %d r2a_ref0 %s), @None nat)'
                       % (t, W, DW, DW // 8, ins, t, W, DW, ins)))
     res = {}
-    for c in range(0, len(items), 60):
-        res.update(common.coq_eval('C16_traces_%d' % (c // 60), PRELUDE, items[c:c + 60]))
+    for c in range(0, len(items), 80):
+        res.update(common.coq_eval('C16_traces_%d' % (c // 80), PRELUDE, items[c:c + 80]))
     for name, cases in (('a', a_cases), ('b', b_cases)):
         for j, (W, DW, sched, tr) in enumerate(cases):
             dm, dr, dh = res['%s%d' % (name, j)]
@@ -157,7 +157,7 @@ def random_sweep(ctx, n_sched, n_cycles, with_coq):
 
 
 # ------------------------------------------------------------------ exhaustive closure over small data
-def closure(ctx, cls, W, DW, data, depth, with_coq):
+def closure(ctx, cls, W, DW, data, depth):
     """breadth-first over (snapshot of the real block, monitor state): from every reached pair apply EVERY input once
     (the real block is restored to the snapshot, stepped, observed).  Each schedule of length <= depth over `data` is a path
     of this graph; when the frontier empties before `depth` the graph is closed and every longer schedule is covered too.
@@ -208,26 +208,43 @@ def closure(ctx, cls, W, DW, data, depth, with_coq):
             'closed_at_depth': level if not frontier else None, 'depth_bound': depth}
     ctx.notes.setdefault('closure', []).append(info)
     ctx.log('closure %s' % info)
-    if with_coq and trans:
-        tl = list(trans.items())
-        for c in range(0, len(tl), 400):
-            part = tl[c:c + 400]
-            lst = '[' + '; '.join('(%s, %s, %s)' % (tup(s), tup(i), zl(e)) for (s, i), e in part) + ']'
-            if cls is B.A2R:
-                items = [('m', 'bad_idx (a2r_trans_ok %d) 0 %s' % (W, lst)), ('r', 'bad_idx (a2r_ref_trans_ok %d) 0 %s' % (W, lst))]
-            else:
-                items = [('m', 'bad_idx (r2a_trans_ok %d %d %d) 0 %s' % (W, DW, DW // 8, lst)), ('r', 'bad_idx (r2a_ref_trans_ok %d %d) 0 %s' % (W, DW, lst))]
-            res = common.coq_eval('C16_trans_%s_%d' % (blk.name, c // 400), PRELUDE, items)
-            for key, what, spec in (('r', 'reference machine (Spec/C16.v)', True), ('m', 'gate-level model (Model/Axi.v)', False)):
-                if res[key]:
-                    (s, i), e = part[res[key][0]]
-                    path = next((p for (sn, _), p in seen.items() if snapshot_matches(blk, sn, s)), None)
-                    ctx.violation({'what': '%s: one clock edge of the real block differs from the %s' % (blk.name, what), 'block': blk.name, 'W': W, 'DW': DW,
-                                   'schedule': [list(x) for x in (path or []) + [i]], 'cycle': len(path or []),
-                                   'state_before(Reg.value..., wires...)': list(s), 'input': list(i), 'impl_after(state ++ outputs)': e,
-                                   'inputs': ctx_inputs(blk)}, found_input=spec)
-                    raise Stop()
+    info['_data'] = (blk, cls, inputs, trans, seen)
     return info
+
+
+def closure_coq(ctx, infos):
+    """one Coq evaluation for all closures: Coq tabulates, for every reached state and every input, the state and outputs after
+    one edge of the gate-level model and the outputs of the reference machine; compared here with what the real block did."""
+    items, metas = [], []
+    for n, info in enumerate(infos):
+        blk, cls, inputs, trans, seen = info.pop('_data')
+        snaps = sorted({s for (s, i) in trans})
+        sl = '[' + '; '.join(tup(x) for x in snaps) + ']'
+        il = '[' + '; '.join(tup(x) for x in inputs) + ']'
+        if cls is B.A2R: items.append(('t%d' % n, 'a2r_table %d %s %s' % (blk.W, sl, il)))
+        else: items.append(('t%d' % n, 'r2a_table %d %d %d %s %s' % (blk.W, blk.DW, blk.DW // 8, sl, il)))
+        metas.append((blk, cls, inputs, trans, seen, snaps))
+    if not items: return
+    res = common.coq_eval('C16_tables', PRELUDE, items)
+    for n, (blk, cls, inputs, trans, seen, snaps) in enumerate(metas):
+        table = res['t%d' % n]
+        ns, no = (6, 4) if cls is B.A2R else (8, 6)
+        for a, sn in enumerate(snaps):
+            for b, i in enumerate(inputs):
+                if (sn, i) not in trans: continue
+                e = trans[(sn, i)]
+                row = table[a][b]
+                bad = ('reference machine (Spec/C16.v)', True) if row[ns + no:] != e[ns:] else \
+                      ('gate-level model (Model/Axi.v)', False) if row[:ns + no] != e else None
+                if bad:
+                    path = next((p for (full, _), p in seen.items() if snapshot_matches(blk, full, sn)), None)
+                    ctx.violation({'what': '%s: one clock edge of the real block differs from the %s' % (blk.name, bad[0]), 'block': blk.name, 'W': blk.W, 'DW': blk.DW,
+                                   'schedule': [list(x) for x in (path or []) + [i]], 'cycle': len(path or []),
+                                   'state_before(Reg.value..., wires...)': list(sn), 'input': list(i), 'impl_after(state ++ outputs)': e,
+                                   'model_after(state ++ outputs)': row[:ns + no], 'reference_outputs': row[ns + no:], 'inputs': ctx_inputs(blk)},
+                                  found_input=bad[1])
+                    raise Stop()
+    ctx.log('closure tables compared with Coq (%d tables)' % len(items))
 
 
 def snapshot_matches(blk, full_snapshot, model_snapshot):
@@ -281,7 +298,7 @@ def fsm_sweep(ctx, n_sched, with_coq):
     # Axi2Clk: handshakes with small targets, sometimes back to back
     for k in range(n_sched):
         blk = B.A2C(64)
-        dp = blk.dump() if with_coq and k < 6 else None
+        dp = blk.dump() if with_coq and k < 2 else None
         iv = dp.values() if dp else None
         sched = [(1, 0, 0, 0, 1)]
         b2b = k % 3 == 2
@@ -306,7 +323,7 @@ def fsm_sweep(ctx, n_sched, with_coq):
     # VitisKernelFSM: ap_done wire high after a cycle iff the FSM was in state 2 and saw all_sent; high exactly one cycle
     for k in range(n_sched):
         blk = B.VKF()
-        dp = blk.dump() if with_coq and k < 6 else None
+        dp = blk.dump() if with_coq and k < 2 else None
         iv = dp.values() if dp else None
         sched = [tuple(B._bits(rng, p) for p in (0.4, 0.0, 0.4, 0.4)) for _ in range(50)]
         full, prev_done = [], 0
@@ -350,15 +367,17 @@ def run(ctx):
     gc.disable()        # hundreds of thousands of small tuples are alive during the sweeps; collections only cost time
     ctx.log('proofs built: %s' % r['ok'])
     try:
-        random_sweep(ctx, 48 if q else 400, 40 if q else 60, with_coq=model_ok)
+        random_sweep(ctx, 32 if q else 320, 36 if q else 60, with_coq=model_ok)
+        infos = []
         for cls in (B.A2R, B.R2A):
-            closure(ctx, cls, 1, 8, (0, 1), 64, with_coq=model_ok)                 # 1-bit data: closes, i.e. all schedules of every length
-            closure(ctx, cls, 2, 8, (0, 1, 2, 3, 5) if cls is B.A2R else (0, 1, 2, 3), 6 if q else 64, with_coq=model_ok)
+            infos.append(closure(ctx, cls, 1, 8, (0, 1), 64))                      # 1-bit data: closes, i.e. all schedules of every length
+            if cls is B.A2R or not q:
+                infos.append(closure(ctx, cls, 2, 8, (0, 1, 2, 3, 5) if cls is B.A2R else (0, 1, 2, 3), 64))
             explicit_paths(ctx, cls, 1, 8, (0, 1), 3 if q else 4)
         if not q:
-            closure(ctx, B.A2R, 3, 8, tuple(range(8)) + (8, 255), 64, with_coq=model_ok)
-            closure(ctx, B.R2A, 3, 8, tuple(range(8)), 64, with_coq=model_ok)
-        fsm_sweep(ctx, 9 if q else 60, with_coq=model_ok)
+            infos.append(closure(ctx, B.A2R, 3, 8, tuple(range(8)) + (8, 255), 64))
+        if model_ok: closure_coq(ctx, infos)
+        fsm_sweep(ctx, 6 if q else 60, with_coq=model_ok)
         if not tie_ok:
             # proof or model no longer checks and the sweeps above found no failing schedule: widen once, then report
             random_sweep(ctx, 300, 60, with_coq=False)
